@@ -138,6 +138,7 @@ type Ctx struct {
 	extra       map[string]any
 	rule        string
 	ncorr       int
+	perClass    map[string]int
 }
 
 // Start parses the standard flags.
@@ -186,7 +187,6 @@ func (c *Ctx) Corr(caseLine, implLine string) int {
 	c.impl.WriteString(implLine)
 	c.impl.WriteByte('\n')
 	c.ncorr++
-	c.n++
 	if len(c.samples) < 3 && len(caseLine) < 400 {
 		c.samples = append(c.samples, caseLine+" => "+implLine)
 	}
@@ -207,8 +207,8 @@ func (c *Ctx) Sample(s string) {
 		c.samples = append(c.samples, s)
 	}
 }
-func (c *Ctx) Rule(s string)            { c.rule = s }
-func (c *Ctx) Extra(k string, v any)    { c.extra[k] = v }
+func (c *Ctx) Rule(s string)         { c.rule = s }
+func (c *Ctx) Extra(k string, v any) { c.extra[k] = v }
 func (c *Ctx) Fail(f Failure) {
 	c.failures = append(c.failures, f)
 	c.perClass[f.Class]++
